@@ -206,7 +206,7 @@ static size_t genWidth(vh::Rng &rng, size_t round, size_t lo, size_t hi) {
 static const char *PRIMS[] = {
 	"bitcount", "decoder", "encoder", "encdec", "pe", "petree1", "petree2", "petree3", "clz", "therm", "thermw", "thermback", "thermrt",
 	"grayenc", "graydec", "grayrt", "minu", "maxu", "mins", "maxs", "bpt", "divu", "divs", "csa", "csadd", "addc",
-	"ctr_end", "ctr_w", "ctr_uend", "ctr_auto", "updown", "crc", "crcwk", "crcgen", "petreereg", "bad",
+	"ctr_end", "ctr_w", "ctr_uend", "ctr_auto", "updown", "crc", "crcwk", "crcgen", "petreereg", "divpipe", "bad",
 };
 static const size_t NPRIMS = sizeof(PRIMS) / sizeof(PRIMS[0]);
 
@@ -279,6 +279,36 @@ int main(int argc, char **argv) {
 					}
 					s.set(pa.node(), v); s.eval();
 					o << "s " << v << " > " << s.getPin(ov.node()) << ' ' << s.getPin(ovv.node()) << '\n';
+					s.sim.advance(T);
+				}
+			} catch (const std::exception &e) { o << "err " << errClass(e) << '\n'; }
+		} else if (prim == "divpipe") {
+			// stepsPerPipelineReg > 0: pipestage() hints + a PipeBalanceGroup at the inputs, resolved by retiming in postprocess()
+			size_t nw = genWidth(rng, round, 1, std::min<size_t>(maxw, 48)), dw = rng.chance(1, 2) ? nw : 1 + rng.below(std::min<size_t>(maxw, 48));
+			size_t steps = 1 + rng.below(std::min<size_t>(nw, 6));
+			bool sgn = rng.chance(1, 3) && nw >= 2;
+			o << ' ' << nw << ' ' << dw << ' ' << steps << ' ' << sgn << '\n';
+			try {
+				DesignScope design;
+				Clock clk({ .absoluteFrequency = 100'000'000 });
+				ClockScope cs(clk);
+				auto pn = pinIn(BitWidth(nw)).setName("n"); UInt n = pn;
+				auto pd = pinIn(BitWidth(dw)).setName("d"); UInt d = pd;
+				PipeBalanceGroup group;
+				n = group(n); d = group(d);
+				hlim::Node_Pin *oq;
+				if (sgn) oq = pinOut(scl::longDivision((SInt) n, d, steps)).setName("q").node();
+				else oq = pinOut(scl::longDivision(n, d, steps)).setName("q").node();
+				design.postprocess();
+				o << "stages " << group.getNumPipeBalanceGroupStages() << '\n';
+				vh::Sim s(design.getCircuit());
+				hlim::ClockRational T(1, 100'000'000);
+				s.set(pn.node(), std::string(nw, '0')); s.set(pd.node(), std::string(dw, '0')); s.eval();
+				s.sim.advance(hlim::ClockRational(1, 400'000'000)); s.sim.advance(T);
+				for (size_t t = 0; t < 40 + nw / steps; t++) {
+					std::string a = genBits(rng, nw), b = genBits(rng, dw);
+					s.set(pn.node(), a); s.set(pd.node(), b); s.eval();
+					o << "s " << a << ' ' << b << " > " << s.getPin(oq) << '\n';
 					s.sim.advance(T);
 				}
 			} catch (const std::exception &e) { o << "err " << errClass(e) << '\n'; }
